@@ -1397,6 +1397,10 @@ static void MPSreadBounds(MPSInput& mps, LPColSetBase<Rational>& cset, const Nam
          return;
       }
 
+      // a line that holds nothing but a fixed-format '$' comment has no fields at all
+      if(mps.field1() == nullptr)
+         break;
+
       // Is the value field used ?
       if((!strcmp(mps.field1(), "LO"))
             || (!strcmp(mps.field1(), "UP"))
